@@ -77,3 +77,44 @@ fn c19_union_find_equivalence_and_counts() {
     kani::cover!(merges == 0);
     std::mem::forget(uf);
 }
+
+/// closure on 6 elements
+fn closure6(pairs: &[(usize, usize); 5]) -> [[bool; 6]; 6] {
+    let mut r = [[false; 6]; 6];
+    let mut i = 0; while i < 6 { r[i][i] = true; i += 1; }
+    let mut p = 0; while p < 5 { r[pairs[p].0][pairs[p].1] = true; r[pairs[p].1][pairs[p].0] = true; p += 1; }
+    let mut k = 0;
+    while k < 6 { let mut i = 0; while i < 6 { let mut j = 0; while j < 6 { if r[i][k] && r[k][j] { r[i][j] = true; } j += 1; } i += 1; } k += 1; }
+    r
+}
+
+//@ property: C19
+//@ tier: quick
+//@ cap_s: 900
+//@ mem_gb: 12
+//@ encodes: UnionFind::{new,find,union,connected} with trees of rank 2 (union by rank: the "lower rank under higher rank" branch with a non-root argument)
+//@ symbolic: the arguments of the fourth and fifth union (0..6 each) after three fixed unions that build a rank-2 tree {0,1,2,3}; the queried pair
+//@ bound: 6 elements, 5 unions: union(0,1); union(2,3); union(0,2); then two symbolic unions
+//@ oracle: connected(a,b) == closure of the five pairs; each symbolic union reports a merge exactly when the sets differed
+#[kani::proof]
+#[kani::unwind(8)]
+fn c19_union_find_rank2_trees() {
+    let mut uf = UnionFind::new(6);
+    assert!(uf.union(0, 1)); assert!(uf.union(2, 3)); assert!(uf.union(0, 2));
+    let mut pairs = [(0usize, 1usize), (2, 3), (0, 2), (0, 0), (0, 0)];
+    let (x3, y3, x4, y4): (usize, usize, usize, usize) = (kani::any(), kani::any(), kani::any(), kani::any());
+    kani::assume(x3 < 6 && y3 < 6 && x4 < 6 && y4 < 6);
+    let before3 = closure6(&pairs)[x3][y3];
+    assert!(uf.union(x3, y3) == !before3);
+    pairs[3] = (x3, y3);
+    let before4 = closure6(&pairs)[x4][y4];
+    assert!(uf.union(x4, y4) == !before4, "union() reports a merge although the elements were already connected (or the reverse)");
+    pairs[4] = (x4, y4);
+    let want = closure6(&pairs);
+    let (a, b): (usize, usize) = (kani::any(), kani::any());
+    kani::assume(a < 6 && b < 6);
+    assert!(uf.connected(a, b) == want[a][b], "connected() disagrees with the closure of the unions");
+    kani::cover!(x3 == 4 && y3 == 5 && x4 == 5 && y4 == 0);
+    kani::cover!(want[4][3] && !want[5][0]);
+    std::mem::forget(uf);
+}
